@@ -8,6 +8,7 @@ import (
 	"context"
 	"fmt"
 	"math"
+	"os"
 	"reflect"
 	"strconv"
 	"strings"
@@ -22,7 +23,14 @@ import (
 	"github.com/sourcegraph/zoekt/query"
 )
 
-const vfC25MaxMessageSize = 1 << 20 // grpc/chunk.maxMessageSize (unexported); a wrong copy shows up as a correspondence mismatch
+// grpc/chunk.maxMessageSize (unexported) of the checked tree, read by harness/overlay/chunk/zz_verif_c25_const_test.go
+// and handed over by prop.py; the fallback is only used when the test is run by hand.
+var vfC25MaxMessageSize = func() int {
+	if v, err := strconv.Atoi(os.Getenv("VERIF_C25_MAX")); err == nil && v > 0 {
+		return v
+	}
+	return 1 << 20
+}()
 
 type vfC25Stream struct {
 	grpc.ServerStream
@@ -152,7 +160,7 @@ func TestVerifC25(t *testing.T) {
 	}
 	for ci := 0; ci < n; ci++ {
 		// ---- generate an event sequence
-		shape := r.Intn(6)
+		shape := r.Intn(7)
 		nev := 1 + r.Intn(8)
 		var events []*zoekt.SearchResult
 		nextID := uint64(1)
@@ -216,6 +224,29 @@ func TestVerifC25(t *testing.T) {
 				addFiles(true)
 				addStatsRun(r.Intn(3), 30)
 			}
+		case 6: // exact boundary: two files whose proto sizes sum to maxMessageSize-1 / +0 / +1
+			mk := func(id uint64, n int) zoekt.FileMatch {
+				return zoekt.FileMatch{FileName: strconv.FormatUint(id, 10), Repository: "r", Content: big[:n]}
+			}
+			half := vfC25MaxMessageSize/2 - 100 + r.Intn(50)
+			f1 := mk(nextID, half)
+			nextID++
+			target := vfC25MaxMessageSize + r.Intn(3) - 1 - proto.Size(f1.ToProto())
+			n2 := target - 30
+			f2 := mk(nextID, n2)
+			for it := 0; it < 6 && proto.Size(f2.ToProto()) != target; it++ {
+				n2 += target - proto.Size(f2.ToProto())
+				f2 = mk(nextID, n2)
+			}
+			nextID++
+			fs := []zoekt.FileMatch{f1, f2}
+			if r.Bool() {
+				fs = append(fs, mk(nextID, r.Intn(100)))
+				nextID++
+			}
+			events = append(events, &zoekt.SearchResult{Files: fs, Stats: vfC25GenStats(r, fields, false),
+				Progress: zoekt.Progress{Priority: vfC25GenPri(r), MaxPendingPriority: vfC25GenPri(r)}})
+			addStatsRun(r.Intn(3), 30)
 		case 4: // nothing but zero stats / empty
 			addStatsRun(r.Intn(150), 100)
 		default:
@@ -238,7 +269,7 @@ func TestVerifC25(t *testing.T) {
 			for i := range e.Files {
 				id, _ := strconv.ParseUint(e.Files[i].FileName, 10, 64)
 				sz := uint64(proto.Size(e.Files[i].ToProto()))
-				if sz >= vfC25MaxMessageSize {
+				if sz >= uint64(vfC25MaxMessageSize) {
 					nHuge++
 				}
 				sn.ids = append(sn.ids, id)
@@ -276,6 +307,7 @@ func TestVerifC25(t *testing.T) {
 			return map[string]any{"events": evs, "counters": names, "messages": len(rec.msgs)}
 		}
 		budgetFail := false
+		nBoundary := 0
 		for _, m := range rec.msgs {
 			c := m.GetResponseChunk()
 			var ids, sizes []uint64
@@ -288,6 +320,9 @@ func TestVerifC25(t *testing.T) {
 				total += sz
 			}
 			gotIDs = append(gotIDs, ids...)
+			if total == vfC25MaxMessageSize-1 || total == vfC25MaxMessageSize {
+				nBoundary++
+			}
 			if total >= vfC25MaxMessageSize && len(ids) > 1 {
 				budgetFail = true
 			}
@@ -328,7 +363,7 @@ func TestVerifC25(t *testing.T) {
 		if len(msgTerms) > 0 {
 			ml = cList(msgTerms)
 		}
-		coq := cTuple(cN(vfC25MaxMessageSize), evl, ml)
+		coq := cTuple(cN(uint64(vfC25MaxMessageSize)), evl, ml)
 		class := []string{fmt.Sprintf("shape=%d", shape)}
 		if nStatsOnly >= 100 {
 			class = append(class, "stats-run>=100")
@@ -336,6 +371,10 @@ func TestVerifC25(t *testing.T) {
 		if nHuge > 0 {
 			class = append(class, "file>=budget")
 		}
+		if shape == 6 {
+			class = append(class, "sum-at-budget-boundary")
+		}
+		_ = nBoundary
 		if len(rec.msgs) > len(events)-nStatsOnly {
 			class = append(class, "extra-messages(chunks/samples/flush)")
 		}
